@@ -84,7 +84,12 @@ struct HalfaggSim {
         Bytes before = buf.bytes();
         size_t len = (size_t)cap;
         MonMark mk = mon_mark();
-        int ok = L01(secp256k1_schnorrsig_inc_aggregate(ctx, buf.p(), &len, pks.data(), msgs.data(), sigs.data(), A.used.size(), news.size()));
+        // the header allows NULL arrays when the corresponding count is zero
+        bool nulls = p.c("nullptrs");
+        const secp256k1_xonly_pubkey *pkp = (nulls && ntot == 0) ? NULL : pks.data();
+        const unsigned char *msgp = (nulls && ntot == 0) ? NULL : msgs.data(), *sigp = (nulls && news.empty()) ? NULL : sigs.data();
+        if (nulls && (ntot == 0 || news.empty())) r.probe("null_arrays_with_zero_count");
+        int ok = L01(secp256k1_schnorrsig_inc_aggregate(ctx, buf.p(), &len, pkp, msgp, sigp, A.used.size(), news.size()));
         r.cmp();
         if (!mon_quiet_since(mk)) { r.violate("C17", "callback", "secp256k1_schnorrsig_inc_aggregate", "callback on valid arguments: " + g_mon.last_illegal); return false; }
         if (!buf.intact()) { r.violate("C17", "overflow", "secp256k1_schnorrsig_inc_aggregate", "wrote outside the " + std::to_string(cap) + "-byte buffer"); return false; }
@@ -226,7 +231,8 @@ struct HalfaggSim {
         }
         Buf ab(v_agg.data(), v_agg.size());
         MonMark mk = mon_mark();
-        int v = v_agg.empty() ? 0 : L01(secp256k1_schnorrsig_aggverify(ctx, pks.data(), msgs.data(), k, ab.p(), v_agg.size()));
+        bool vn = p.c("nullptrs") && k == 0;
+        int v = v_agg.empty() ? 0 : L01(secp256k1_schnorrsig_aggverify(ctx, vn ? NULL : pks.data(), vn ? NULL : msgs.data(), k, ab.p(), v_agg.size()));
         bool mv = !v_agg.empty() && ref::halfagg_verify(mpk, mmsg, v_agg.data(), v_agg.size());
         r.cmp();
         verdict_seen = true;
@@ -312,7 +318,7 @@ static Plan halfagg_generate(uint64_t seed, int tier) {
     Plan p;
     p.cfg["inseed"] = (int64_t)(g.next() >> 1);
     int n = g.chance(1, 10) ? 0 : (g.chance(1, 8) ? (int)g.range(13, tier ? 64 : 24) : (int)g.range(1, 12));
-    p.cfg["n"] = n; p.cfg["nkeys"] = (int64_t)g.range(1, 4); p.cfg["sloppy"] = g.chance(1, 5); p.cfg["comp"] = g.chance(1, 5); p.cfg["shadow"] = g.chance(1, 3);
+    p.cfg["n"] = n; p.cfg["nkeys"] = (int64_t)g.range(1, 4); p.cfg["sloppy"] = g.chance(1, 5); p.cfg["comp"] = g.chance(1, 5); p.cfg["shadow"] = g.chance(1, 3); p.cfg["nullptrs"] = g.chance(1, 2);
     // delivery schedule of the triples = the split of the incremental aggregation
     int style = (int)g.below(4);
     for (int i = 0; i < n; i++) {
